@@ -14,6 +14,7 @@ type Finding struct {
 }
 
 type ctx struct {
+	absSvc   map[string]bool // services whose own HTTP path is absolute ("//...") in a design with an API base path
 	hidden   map[string]bool // (method, pattern) of the mounted operations the description marks openapi:generate=false
 	md       *MDesign
 	findings []Finding
@@ -144,6 +145,8 @@ func (c *ctx) compareOps(ver string, doc, srv []Op, strictV2 bool) {
 			c.counts["openapi2_inexpressible_verb_skipped"]++
 		case s.File && (strings.Contains(s.RawPath, "{*") || strings.HasSuffix(s.RawPath, "/") && s.RawPath != "/"):
 			c.fail(ver+"-op-missing:file-server-directory", fmt.Sprintf("file server mount %s %s is absent from %s", s.Method, s.RawPath, ver))
+		case ver == "openapi2" && c.absSvc[s.Service]:
+			c.fail(ver+"-op-missing:absolute-service-path-under-kept-basepath", fmt.Sprintf("%s %s (service with an absolute path) is mounted; openapi2 keeps basePath and writes the key in full, so it resolves elsewhere", s.Method, s.Path))
 		default:
 			c.fail(ver+"-op-missing", fmt.Sprintf("%s %s is mounted by the generated server and absent from %s", s.Method, s.Path, ver))
 		}
@@ -156,6 +159,8 @@ func (c *ctx) compareOps(ver string, doc, srv []Op, strictV2 bool) {
 			c.fail(ver+"-op-listed-despite-openapi-generate-false", fmt.Sprintf("%s lists %s %s although its service, method or file server carries openapi:generate=false", ver, o.Method, o.RawPath))
 		} else if strings.Contains(o.RawPath, "{*") {
 			c.fail(ver+"-op-extra:wildcard-kept-in-path-key", fmt.Sprintf("%s lists %s %s: the path key keeps the {*name} form, which is not a path template", ver, o.Method, o.RawPath))
+		} else if ver == "openapi2" && len(c.absSvc) > 0 && c.md.APIBase != "" && strings.HasPrefix(o.RawPath, strings.TrimSuffix(c.md.APIBase, "/")+"/") {
+			c.fail(ver+"-op-extra:absolute-service-path-under-kept-basepath", fmt.Sprintf("openapi2 resolves to %s %s (basePath + full key of a service with an absolute path), which the generated server does not mount", o.Method, o.RawPath))
 		} else {
 			c.fail(ver+"-op-extra", fmt.Sprintf("%s lists %s %s which the generated server does not mount", ver, o.Method, o.RawPath))
 		}
